@@ -191,10 +191,11 @@ func (f *File) register(path string) string {
 		alias = true
 	}
 
-	// If the name is invalid or has been registered already, make it unique by appending a number
+	// If the name is invalid or has been registered already, make it unique by appending a number.
+	// The name that ends up in the import block (with the prefix, if one applies) must be free too.
 	unique := name
 	i := 0
-	for !f.isValidAlias(unique) {
+	for !f.isValidAlias(unique) || !f.isValidAlias(f.prefixed(unique, alias || unique != name)) {
 		i++
 		unique = fmt.Sprintf("%s%d", name, i)
 	}
@@ -204,15 +205,22 @@ func (f *File) register(path string) string {
 		alias = true
 	}
 
-	// Only add a prefix if the name is an alias (a dot-import has no name to prefix)
-	if f.PackagePrefix != "" && alias && unique != "." {
-		unique = f.PackagePrefix + "_" + unique
-	}
+	// Only add a prefix if the name is an alias
+	unique = f.prefixed(unique, alias)
 
 	// Register the eventual name
 	f.imports[path] = importdef{name: unique, alias: alias}
 
 	return unique
+}
+
+// prefixed returns the name as it is written in the import block: aliases get the package prefix,
+// if one is set (a dot-import has no name to prefix).
+func (f *File) prefixed(name string, alias bool) string {
+	if f.PackagePrefix != "" && alias && name != "." {
+		return f.PackagePrefix + "_" + name
+	}
+	return name
 }
 
 // GoString renders the File for testing. Any error will cause a panic.
